@@ -17,8 +17,9 @@ outcome of a file is `panic` if the flag is set anywhere before a walker error, 
 was recorded, `ok` otherwise (`Compile.File`).
 
 Go's partial operations on this path, as explicit panic arms:
-* `proto.SetExtension(desc.Options, ext_j5pb.E_Field, *ext_j5pb.DateField | *DecimalField)`:
-  wrong Go type for the extension (date / decimal rules);
+* (until `fix: 9a528a0`: date / decimal rules passed `*DateField` / `*DecimalField` to
+  `proto.SetExtension(…, ext_j5pb.E_Field, …)` — wrong Go type; the repaired code wraps them
+  in `FieldOptions`, the arm is gone)
 * `ensureImport("")` / `ensureImport(path without "/")` (explicit `panic` in builders.go);
 * `ww.field.name` with `ww.field == nil` for a oneof without a name.
 -/
@@ -87,9 +88,6 @@ def when (b : Bool) (e : Eff) : Eff := if b then e else {}
 def listRulesEff (lr : Bool) : Eff :=
   when lr (Eff.imp j5ListAnnotationsImport ++ Eff.use j5ListAnnotationsImport)
 
-/-- `(buf.validate.field)` set WITHOUT `ensureImport(bufValidateImport)` -/
-def validateNoImport (b : Bool) : Eff := when b (Eff.use bufValidateImport)
-
 /-- `(buf.validate.field)` set with its import -/
 def validateWithImport (b : Bool) : Eff :=
   when b (Eff.imp bufValidateImport ++ Eff.use bufValidateImport)
@@ -135,13 +133,19 @@ def enumPrefix (e : EnumDecl) : Str :=
 /-- `enumBuilder.addValue`: the prefix is added unless already there -/
 def enumFull (pfx n : Str) : Str := if hasPrefix pfx n then n else pfx ++ n
 
-/-- values of `visitEnumNode`: implicit `<PREFIX>UNSPECIFIED = 0` (replaced by a leading option
-whose name ends in `UNSPECIFIED`; `Enum.Option.number` is 0 for every option of a parsed file),
-then `idx + 1` -/
+/-- `strings.TrimPrefix` -/
+def trimPrefix (s pfx : Str) : Str := if hasPrefix pfx s then s.drop pfx.length else s
+
+/-- `isExplicitUnspecified` (`fix: 50e59b3`): the option is `UNSPECIFIED` or `<PREFIX>UNSPECIFIED`
+(`Enum.Option.number` is 0 for every option of a parsed file) -/
+def isExplicitUnspecified (pfx name : Str) : Bool := trimPrefix name pfx = b!"UNSPECIFIED"
+
+/-- values of `visitEnumNode`: implicit `<PREFIX>UNSPECIFIED = 0` (a leading option that is the
+explicit zero takes its place), then `idx + 1` -/
 def enumValues (pfx : Str) (opts : List Str) : List (Str × Nat) :=
   match opts with
   | first :: rest =>
-    if hasSuffix b!"UNSPECIFIED" first then
+    if isExplicitUnspecified pfx first then
       (enumFull pfx first, 0) :: rest.zipIdx.map fun (n, i) => (enumFull pfx n, i + 1)
     else
       (pfx ++ b!"UNSPECIFIED", 0) :: opts.zipIdx.map fun (n, i) => (enumFull pfx n, i + 1)
@@ -159,24 +163,24 @@ def enumTKind (e : EnumDecl) : TKind :=
 /-- scalar (non-reference) branches of `buildField` -/
 def scalarField : Field → Option BF
   | .string rules lr => some
-    { eff := j5Ext ++ validateNoImport (!rules.isEmpty) ++ listRulesEff lr,
+    { eff := j5Ext ++ validateWithImport (!rules.isEmpty) ++ listRulesEff lr,
       res := some { type := .string, ext := b!"string", hasValidate := !rules.isEmpty } }
   | .bool rules lr => some
-    { eff := j5Ext ++ validateNoImport (!rules.isEmpty) ++ listRulesEff lr,
+    { eff := j5Ext ++ validateWithImport (!rules.isEmpty) ++ listRulesEff lr,
       res := some { type := .bool, ext := b!"bool", hasValidate := !rules.isEmpty } }
   | .bytes rules => some
-    { eff := j5Ext ++ validateNoImport (!rules.isEmpty),
+    { eff := j5Ext ++ validateWithImport (!rules.isEmpty),
       res := some { type := .bytes, ext := b!"bytes", hasValidate := !rules.isEmpty } }
   | .date rules lr => some
-    { eff := Eff.imp j5DateImport ++ when (!rules.isEmpty) Eff.panicked
-              ++ listRulesEff lr,
-      res := some { type := .message, typeName := b!".j5.types.date.v1.Date" } }
+    { eff := Eff.imp j5DateImport ++ when (!rules.isEmpty) j5Ext ++ listRulesEff lr,
+      res := some { type := .message, typeName := b!".j5.types.date.v1.Date",
+                    ext := if rules.isEmpty then [] else b!"date" } }
   | .decimal rules lr => some
-    { eff := Eff.imp j5DecimalImport ++ when (!rules.isEmpty) Eff.panicked
-              ++ listRulesEff lr,
-      res := some { type := .message, typeName := b!".j5.types.decimal.v1.Decimal" } }
+    { eff := Eff.imp j5DecimalImport ++ when (!rules.isEmpty) j5Ext ++ listRulesEff lr,
+      res := some { type := .message, typeName := b!".j5.types.decimal.v1.Decimal",
+                    ext := if rules.isEmpty then [] else b!"decimal" } }
   | .timestamp rules => some
-    { eff := Eff.imp pbTimestampImport ++ j5Ext ++ validateNoImport (!rules.isEmpty),
+    { eff := Eff.imp pbTimestampImport ++ j5Ext ++ validateWithImport (!rules.isEmpty),
       res := some { type := .message, typeName := b!".google.protobuf.Timestamp",
                     ext := b!"timestamp", hasValidate := !rules.isEmpty } }
   | .any => some
@@ -184,7 +188,7 @@ def scalarField : Field → Option BF
       res := some { type := .message, typeName := b!".j5.types.any.v1.Any", ext := b!"any" } }
   | .integer fmt rules lr =>
     if !rules.isEmpty && intRulesErr rules then some { eff := j5Ext } else some
-    { eff := j5Ext ++ validateNoImport (!rules.isEmpty) ++ listRulesEff lr,
+    { eff := j5Ext ++ validateWithImport (!rules.isEmpty) ++ listRulesEff lr,
       res := some { type := intType fmt, ext := b!"integer", hasValidate := !rules.isEmpty } }
   | .float fmt rules lr =>
     if !rules.isEmpty then some {} else some
